@@ -415,10 +415,12 @@ class Differ:
                     lhs_parent=lhs, lhs_iteration=idx,
                     rhs_parent=rhs, rhs_iteration=idx,
                     parentref=idx)
-            elif lele != rele:
+            else:
                 self._diffs.append(
                     DiffEntry(
-                        DiffActions.CHANGE, next_path, lele, rele,
+                        (DiffActions.SAME
+                         if Differ._is_same_data(lele, rele)
+                         else DiffActions.CHANGE), next_path, lele, rele,
                         lhs_parent=lhs, lhs_iteration=idx,
                         rhs_parent=rhs, rhs_iteration=idx,
                         parentref=idx))
@@ -508,7 +510,7 @@ class Differ:
                     # KEY-based comparisons
                     next_path = path + "[{}]".format(lidx)
                     diff_action = (DiffActions.SAME
-                                  if lele == rele
+                                  if Differ._is_same_data(lele, rele)
                                   else DiffActions.CHANGE)
                     self._diffs.append(
                         DiffEntry(diff_action, next_path, lele, rele,
@@ -708,6 +710,25 @@ class Differ:
             self._purge_document(path, lhs)
             self._add_everything(path, rhs)
 
+    @staticmethod
+    def _is_same_data(lhs: Any, rhs: Any) -> bool:
+        """Compare two nodes as data; the order of Hash keys is irrelevant."""
+        if isinstance(lhs, dict) and isinstance(rhs, dict):
+            if len(lhs) != len(rhs):
+                return False
+            for key, val in lhs.items():
+                if key not in rhs or not Differ._is_same_data(val, rhs[key]):
+                    return False
+            return True
+        if isinstance(lhs, list) and isinstance(rhs, list):
+            if len(lhs) != len(rhs):
+                return False
+            for lele, rele in zip(lhs, rhs):
+                if not Differ._is_same_data(lele, rele):
+                    return False
+            return True
+        return bool(lhs == rhs)
+
     @classmethod
     def synchronize_lists_by_value(
         cls, lhs: CommentedSeq, rhs: CommentedSeq
@@ -738,7 +759,7 @@ class Differ:
             del_index = -1
             for reduced_idx, rhs_pair in enumerate(rhs_reduced):
                 (_, rhs_ele) = rhs_pair
-                if rhs_ele == lhs_ele:
+                if cls._is_same_data(lhs_ele, rhs_ele):
                     del_index = reduced_idx
                     break
 
